@@ -50,6 +50,16 @@ class OtherErrorHandler(ErrorHandler):
         return BadGateway(detail='replaced %s' % _error.code)
 
 
+class ReraisingErrorHandler(ErrorHandler):
+    def __init__(self, **kw):
+        kw.setdefault('reraise_uncaught', True)
+        ErrorHandler.__init__(self, **kw)
+
+
+HANDLER_TYPES = {'reraise': ReraisingErrorHandler, 're_raises': RaisingRenderErrorHandler,
+                 're_raises_http': RaisingHTTPRenderErrorHandler, 're_other': OtherErrorHandler}
+
+
 def make_handler(kind):
     if kind == 'default':
         return None, False
@@ -83,7 +93,15 @@ def build_app(cfg):
     rn = make_function('RN', False, params_req=('context',), default_value='resp', bound=False) if cfg['has_render'] else None
     eh, debug = make_handler(cfg['handler'])
     kw = {'debug': True} if debug else {}
-    return Application([Route('/x', ep, rn, middlewares=objs('route')),
+    app_type = Application
+    via = cfg.get('handler_via', 'argument')
+    if via != 'argument' and cfg['handler'] in HANDLER_TYPES:
+        # the documented other way to install a handler: an Application subclass naming its handler TYPE
+        eh = None
+        attr = 'default_debug_error_handler_type' if via == 'debug_class_attr' else 'default_error_handler_type'
+        app_type = type('SimApplication', (Application,), {attr: HANDLER_TYPES[cfg['handler']]})
+        kw = {'debug': True} if via == 'debug_class_attr' else {}
+    return app_type([Route('/x', ep, rn, middlewares=objs('route')),
                         POST('/only-post', make_function('EP2', False, default_value='resp', bound=False)),
                         # two method-restricted routes on one path: a wrong-method request touches both
                         GET('/item', make_function('ITEM_GET', False, default_value='resp', bound=False)),
@@ -142,7 +160,8 @@ class C08(Check):
     runs = {'quick': 2000, 'thorough': 30000}
     shrink_lists = (('ops',), ('config', 'mws'))
     rule = ('generated stacks (0-4 middlewares, app/route level, any phases) x error handler {default, debug, re-raising, '
-            'broken render_error, render_error returning another error}; per stack EVERY chain position is made faulty once '
+            'broken render_error, render_error returning another error}, installed as instance or as handler TYPE on an Application subclass, '
+            'under an interpreter-wide traceback limit {unset, 0, 1, -1, 3}; per stack EVERY chain position is made faulty once '
             '(behaviour drawn from: raise 15 exception types with plain/non-ASCII/1MB/unprintable messages, raise/return every '
             'exported HTTPException class breaking and non-breaking, return Response/str/None/number/dict/bytes/list early or after next) '
             'inside a history that interleaves healthy probes (200/404/405) to assert recovery. Non-trivial: a fault fired; '
@@ -155,7 +174,7 @@ class C08(Check):
     level_text = ('Every position of each generated stack is faulted once per run (fault_enumeration over positions); behaviours, '
                   'handlers, messages and histories are sampled by seed; each faulty request is followed by recovery probes.')
     level_note = 'Trusted: the outcome model (~60 lines, from the property text); the gateway monitor.'
-    required_probes = ('other-application-in-process', 'escaped-original-exception', 'render-error-fallback', 'handler-replaced-error', 'recovered',
+    required_probes = ('handler-installed-as-type-on-application-subclass', 'tracebacklimit-set', 'debug-handler-without-frames', 'other-application-in-process', 'escaped-original-exception', 'render-error-fallback', 'handler-replaced-error', 'recovered',
                        'nonbreaking-http', 'huge-message')
 
     def gen_config(self, rng):
@@ -164,7 +183,9 @@ class C08(Check):
             phases = [ph for ph in PHASES if rng.random() < 0.6] or [rng.choice(PHASES)]
             mws.append({'name': 'm%d' % i, 'level': rng.choice(['app', 'route']), 'phases': phases})
         return {'mws': mws, 'ep_returns': rng.choice(['dict', 'dict', 'resp']), 'has_render': rng.random() < 0.75,
-                'handler': rng.choice(HANDLERS)}
+                'handler': rng.choice(HANDLERS), 'handler_via': rng.choice(['argument', 'argument', 'class_attr', 'debug_class_attr']),
+                # the interpreter-wide traceback depth limit an operator may have set (0 = no frames recorded)
+                'tracebacklimit': rng.choice([None, None, None, None, 0, 0, 1, -1, 3])}
 
     def gen_fault(self, rng, is_leaf):
         msg = rng.choice(sorted(MSGS))
@@ -230,11 +251,30 @@ class C08(Check):
         res = RunResult()
         cfg = plan['config']
         K = 'C08/'
+        import sys
+        had = getattr(sys, 'tracebacklimit', None)
+        try:
+            if cfg.get('tracebacklimit') is not None:
+                sys.tracebacklimit = cfg['tracebacklimit']
+                res.probe('tracebacklimit-set')
+                if cfg['handler'] == 'debug' and cfg['tracebacklimit'] <= 0:
+                    res.probe('debug-handler-without-frames')
+            return self._execute(plan, res, cfg, K)
+        finally:
+            if had is None:
+                if hasattr(sys, 'tracebacklimit'):
+                    del sys.tracebacklimit
+            else:
+                sys.tracebacklimit = had
+
+    def _execute(self, plan, res, cfg, K):
         try:
             app = build_app(cfg)
         except Exception as e:
             res.violate(K + 'setup-failed:%s' % type(e).__name__, '%r %s' % (e, canon(cfg)))
             return res
+        if cfg.get('handler_via', 'argument') != 'argument' and cfg['handler'] in HANDLER_TYPES:
+            res.probe('handler-installed-as-type-on-application-subclass')
         probes = [{'method': 'GET', 'path': '/x', 'accept': None, 'faults': {}},
                   {'method': 'GET', 'path': '/nope', 'accept': 'application/json', 'faults': {}},
                   {'method': 'GET', 'path': '/only-post', 'accept': None, 'faults': {}},
